@@ -178,6 +178,11 @@ def gen_copy(rng, tier, fns=None, widths=(1, 4)):
                 ops.append(mk_copy_sep(fn, w, 4, [0x70, 0, X, X], src, LIM[w] + 1))
                 ops.append(mk_copy_sep(fn, w, 4, [X] * 4, src, 5, sbos=3))
                 ops.append(mk_copy_sep(fn, w, 4, [X] * 4, src, 2, sbos=3))
+            if fn in ("stpcpy_s", "stpncpy_s"):
+                # a source whose known object size holds no terminator: the "src unterminated" exit after copying began
+                for sb in (1, 2):
+                    for dm in (3, 4, 8):
+                        ops.append(mk_copy_sep(fn, w, dm, [X] * dm, [0x61, 0x62, 0x63, 0], 3 if bounded else None, sbos=sb))
             # 4. every placement inside one arena
             for dmax in (1, 2, 3, 4):
                 for slen_src in (0, 1, 2, 3):
